@@ -146,3 +146,22 @@ Example C01_example_default_options :
       = Some (st, full) /\
     returned st = Some true /\ tag st = Some 3 /\ In (Cb CSkip 3) full.
 Proof. eexists. eexists. split; [vm_compute; reflexivity|]. repeat split; simpl; auto. Qed.
+
+(* WithTargetPlatform on a manifest list (platform.SelectManifest / Match, modelled in
+   Model/CopyTop.v and compared with the implementation on every generated platform case):
+   the mapped root is exactly the first entry whose platform matches; no entry matches =>
+   Copy fails before copying (prologue) *)
+Theorem C01_platform_selection :
+  forall (entries : list (node * option plat)) (want : plat) (n : node),
+    select_manifest entries want = Some n <->
+    exists l1 p l2, entries = l1 ++ (n, p) :: l2 /\ plat_match p want = true /\
+                    forall m q, In (m, q) l1 -> plat_match q want = false.
+Proof. exact select_manifest_spec. Qed.
+Print Assumptions C01_platform_selection.
+
+Theorem C01_platform_no_match :
+  forall (entries : list (node * option plat)) (want : plat),
+    select_manifest entries want = None <->
+    forall m q, In (m, q) entries -> plat_match q want = false.
+Proof. exact select_manifest_none. Qed.
+Print Assumptions C01_platform_no_match.
